@@ -184,6 +184,7 @@ func rulesC16(c *Ctx) {
 	crfoldRule(c, "C16.crfold")
 	commentsRule(c, "C16.comments")
 	openersRule(c, "C16.openers")
+	peekDepthRule(c, "C16.peekdepth")
 	afterWSRule(c, tt)
 	parseFreshRule(c, "C16.parsefresh")
 	regexGapRule(c)
@@ -810,4 +811,109 @@ func openersRule(c *Ctx, rule string) {
 		}
 	}
 	c.Floor(rule, n, 1)
+}
+
+// peekDepthRule: the raw one-rune look-ahead is consulted only when no token
+// is waiting in the push-back ring.
+func peekDepthRule(c *Ctx, rule string) {
+	p := c.P
+	c.Rule(rule, "Parser.peekRune, which looks at the raw character stream, is called only where the token push-back depth is 0 on every path from every exported entry point: with a token pushed back it reports the character after that token, so a decision taken on it (is a regex coming? a `:`?) is about the wrong place, and whitespace or a comment there changes what the statement means")
+	unscanP := p.SSAFunc(p.Method("Parser", "Unscan"))
+	scanP := p.SSAFunc(p.Method("Parser", "Scan"))
+	scanRe := p.SSAFunc(p.Method("Parser", "ScanRegex"))
+	peek := p.SSAFunc(p.Method("Parser", "peekRune"))
+	if unscanP == nil || scanP == nil || scanRe == nil || peek == nil {
+		c.Unk(rule, "Parser.peekRune", 0, "anchors not found")
+		return
+	}
+	spec := &pbSpec{p: p, cap: ringCap(p, "bufScanner"), inc: map[*ssa.Function]bool{unscanP: true}, dec: map[*ssa.Function]bool{scanP: true, scanRe: true},
+		incInvoke: map[string]bool{}, decInvoke: map[string]bool{}, scope: map[*ssa.Function]bool{}, bySig: map[string][]*ssa.Function{}}
+	if spec.cap == 0 {
+		c.Unk(rule, "bufScanner ring", 0, "ring capacity not found")
+		return
+	}
+	var entries []*ssa.Function
+	for _, f := range p.allSSAFuncs() {
+		if spec.inc[f] || spec.dec[f] {
+			continue
+		}
+		root := f
+		for root.Parent() != nil {
+			root = root.Parent()
+		}
+		o, _ := root.Object().(*types.Func)
+		if o == nil {
+			continue
+		}
+		rn := recvTypeName(o)
+		if rn == "Parser" && o.Name() != "scan" && o.Name() != "peekRune" || rn == "ParseTree" || isInitFunc(root.Name()) && f.Parent() != nil {
+			spec.scope[f] = true
+			sig := sigKey(f.Signature)
+			if f.Parent() != nil {
+				spec.bySig[sig] = append(spec.bySig[sig], f)
+			}
+			if rn == "Parser" && o.Exported() && f.Parent() == nil {
+				entries = append(entries, f)
+			}
+		}
+	}
+	a := newPB(spec)
+	a.run()
+	hits := a.contexts(entries, map[*ssa.Function]bool{peek: true})
+	// a look-ahead moved into a boolean predicate with a single caller still
+	// belongs to that caller (the finding keeps its name)
+	callers := map[*ssa.Function]map[*ssa.Function]bool{}
+	for f := range spec.scope {
+		for _, b := range f.Blocks {
+			for _, in := range b.Instrs {
+				if call, ok := in.(*ssa.Call); ok {
+					if cal := call.Call.StaticCallee(); cal != nil && spec.scope[cal] {
+						if callers[cal] == nil {
+							callers[cal] = map[*ssa.Function]bool{}
+						}
+						callers[cal][f] = true
+					}
+				}
+			}
+		}
+	}
+	owner := func(f *ssa.Function) *ssa.Function {
+		for i := 0; i < 3; i++ {
+			res := f.Signature.Results()
+			if len(callers[f]) != 1 || res.Len() != 1 || !types.Identical(res.At(0).Type(), types.Typ[types.Bool]) {
+				break
+			}
+			for g := range callers[f] {
+				f = g
+			}
+		}
+		return f
+	}
+	type site struct {
+		call *ssa.Call
+		bits uint32
+	}
+	var sites []site
+	for call, bits := range hits {
+		sites = append(sites, site{call, bits})
+	}
+	sort.Slice(sites, func(i, j int) bool { return sites[i].call.Pos() < sites[j].call.Pos() })
+	perFn := map[string]int{}
+	for _, s := range sites {
+		fn := ssaFuncName(owner(s.call.Parent()))
+		perFn[fn]++
+		key := fmt.Sprintf("%s: peekRune #%d", fn, perFn[fn])
+		if s.bits&^1 == 0 {
+			c.OK(rule, key, s.call.Pos(), "push-back depth 0")
+		} else {
+			var ds []string
+			for d := 0; d <= a.over; d++ {
+				if s.bits&(1<<uint(d)) != 0 {
+					ds = append(ds, fmt.Sprint(d))
+				}
+			}
+			c.Bad(rule, key, s.call.Pos(), "reachable with push-back depth in {"+strings.Join(ds, ",")+"}: the look-ahead skips the pushed-back token")
+		}
+	}
+	c.Floor(rule, len(sites), 4)
 }
